@@ -1,28 +1,27 @@
 ------------------------------ MODULE Gen_Wire ------------------------------
-(* Emits the rows of one entry point as JSON (one object per row):
-     ep, f (field -> class), nominal, expect (outcomes the specification allows), triggers (guards the row exercises).
-   Mode "design": the rows Wire.tla explores (full product, or base-choice covering design of strength Strength);
-   Mode "sample": NSample rows drawn field by field from the full product (TLC's RandomElement, seeded by -seed);
-   Mode "near":   for message-shaped entry points, the strength-1 neighbours of every base with every class of the
-                  parameter bytes and TypeUrl (the complete params table in every mode). *)
+(* Explores Wire.tla's behaviours (so every invariant is checked on every row) and emits each row as JSON, one object
+   per row: ep, f (field -> class), nominal, expect (outcomes the specification allows), triggers (guards exercised).
+   Rows come from the union of the enabled modes:
+     "design"  the rows Wire.tla's Init explores (full product, or base-choice covering design of strength Strength);
+     "sample"  NSample rows per entry point drawn by TLC (RandomElement, seeded by -seed): even draws field by field
+               from the whole product, odd draws around a base (every field moved with probability 1/4). *)
 EXTENDS Wire, Json, Randomization
-CONSTANTS EP, Mode, NSample
+CONSTANTS Modes, NSample
 
-GenRow(r) ==
-  IF Mode = "sample"
-    THEN LET D == Dom(EP) IN \E i \in 1..NSample : r = [f \in DOMAIN D |-> RandomElement(D[f])]
-  ELSE IF Mode = "near"
-    THEN LET D == Dom(EP) IN
-         \E b \in Bases(EP) : \E u \in D.purl : \E p \in D.pbytes : \E f \in DOMAIN D : \E v \in D[f] :
-            r = [[b EXCEPT ![f] = v] EXCEPT !.purl = u, !.pbytes = p]
-  ELSE RowChoice(EP, r)
+SampleRow(e, r) ==
+  LET D == Dom(e)
+      B == Bases(e)
+  IN \E i \in 1..NSample :
+       r = IF i % 2 = 0 \/ B = {}
+             THEN [f \in DOMAIN D |-> RandomElement(D[f])]
+             ELSE LET b == RandomElement(B) IN [f \in DOMAIN D |-> IF RandomElement(1..4) = 1 THEN RandomElement(D[f]) ELSE b[f]]
 
-GenInit == /\ ep = EP
-           /\ GenRow(row)
+GenInit == /\ ep \in EPs
+           /\ \/ "design" \in Modes /\ RowChoice(ep, row)
+              \/ "sample" \in Modes /\ ~FullProduct(ep) /\ SampleRow(ep, row)
            /\ pc = "deliver"
            /\ outcome = None
-GenNext == FALSE /\ UNCHANGED vars
-GenSpec == GenInit /\ [][GenNext]_vars
-Emit == PrintT(ToJson([ep |-> ep, f |-> row, nominal |-> Nominal(ep, row), expect |-> Expect(ep, row),
-                       triggers |-> Triggers(ep, row)]))
+GenSpec == GenInit /\ [][Next]_vars
+Emit == pc = "deliver" => PrintT(ToJson([ep |-> ep, f |-> row, nominal |-> Nominal(ep, row), expect |-> Expect(ep, row),
+                                         triggers |-> Triggers(ep, row)]))
 =============================================================================
